@@ -20,6 +20,23 @@ int clock_gettime(clockid_t clk, struct timespec *ts) {
         int have; long long n = fake_now(&have);
         if (have) { ts->tv_sec = (time_t)n; ts->tv_nsec = 0; return 0; }
     }
+    // patience seam: with ZERV_VERIF_MONO_SCALE=k the monotonic clock of this process runs k times faster from its first
+    // reading on, so a child that really takes 2 s looks like one that took 2k s to whoever measures its own timeouts with it
+    if (clk == CLOCK_MONOTONIC || clk == CLOCK_MONOTONIC_RAW || clk == CLOCK_BOOTTIME) {
+        static int init = 0; static long long scale = 0; static struct timespec base;
+        if (!init) { const char *k = getenv("ZERV_VERIF_MONO_SCALE"); scale = (k && *k) ? atoll(k) : 0; real_clock_gettime(clk, &base); init = 1; }
+        if (scale > 1) {
+            int r = real_clock_gettime(clk, ts);
+            if (r != 0) return r;
+            long long dn = (long long)(ts->tv_sec - base.tv_sec) * 1000000000LL + (ts->tv_nsec - base.tv_nsec);
+            if (dn < 0) dn = 0;
+            __int128 f = (__int128)dn * scale;
+            long long sec = (long long)(f / 1000000000), ns = (long long)(f % 1000000000);
+            ts->tv_sec = base.tv_sec + sec; ts->tv_nsec = base.tv_nsec + ns;
+            if (ts->tv_nsec >= 1000000000L) { ts->tv_sec += 1; ts->tv_nsec -= 1000000000L; }
+            return 0;
+        }
+    }
     return real_clock_gettime(clk, ts);
 }
 
